@@ -10,8 +10,10 @@ Writes one JSON result file; never prints verdict lines itself.
 from __future__ import annotations
 
 import argparse
+import contextlib
 import json
 import os
+import signal
 import sys
 import time
 import traceback
@@ -22,6 +24,30 @@ from vf.core import Ctx, HarnessError, Violation
 
 class CaseFailed(Exception):
     """Raised inside a Hypothesis test body when a case has a not-yet-known violation."""
+
+
+class CaseTimeout(BaseException):
+    """Raised by the per-case watchdog (BaseException: not swallowed by `except Exception`)."""
+
+
+@contextlib.contextmanager
+def watchdog(seconds):
+    """Wall-clock guard around one case.  A trip is 'inconclusive' for every property except
+    C15 (which runs its own CPU-time watchdog and turns a confirmed trip into a verdict)."""
+    if not seconds:
+        yield
+        return
+
+    def handler(signum, frame):
+        raise CaseTimeout()
+
+    old = signal.signal(signal.SIGALRM, handler)
+    signal.setitimer(signal.ITIMER_REAL, seconds)
+    try:
+        yield
+    finally:
+        signal.setitimer(signal.ITIMER_REAL, 0)
+        signal.signal(signal.SIGALRM, old)
 
 
 class Session:
@@ -69,11 +95,25 @@ class Session:
     def evaluate(self, case):
         """Run one plain case; raise CaseFailed for an unknown violation."""
         self.ctx.evaluations += 1
-        vs = self.prop.run_case(case, self.ctx)
+        vs = self.run_guarded(case)
         unknown = self.split(vs)
         if unknown:
             self.record_failure(case, unknown)
             raise CaseFailed(unknown[0].sig_key())
+
+    def run_guarded(self, case):
+        """run_case under the per-case watchdog; a trip skips the case as inconclusive"""
+        limit = getattr(self.prop, "CASE_TIMEOUT", 30)
+        try:
+            with watchdog(limit):
+                return self.prop.run_case(case, self.ctx)
+        except CaseTimeout:
+            self.ctx.add_inconclusive()
+            self.ctx.label("watchdog_trip_case_skipped")
+            lst = self.ctx.extra.setdefault("watchdog_trips", [])
+            if len(lst) < 3:
+                lst.append(core.to_jsonable(case))
+            return []
 
 
 # --------------------------------------------------------------------------------------
@@ -172,7 +212,7 @@ def run_enumerate(sess: Session, shard, nshards):
             continue
         count += 1
         sess.ctx.evaluations += 1
-        vs = prop.run_case(case, sess.ctx)
+        vs = sess.run_guarded(case)
         unknown = sess.split(vs)
         for v in unknown:
             sess.found.append(
@@ -195,7 +235,7 @@ def run_replay(sess: Session, files):
             rec = json.load(f)
         case = rec["case"] if isinstance(rec, dict) and "case" in rec else rec
         sess.ctx.evaluations += 1
-        vs = prop.run_case(case, sess.ctx)
+        vs = sess.run_guarded(case)
         entry = {"file": path, "violations": []}
         for v in vs:
             known_id = None
